@@ -24,9 +24,20 @@ chk = run(["/verif/bin/sa", "check", prop, "--root", wt])
 detected = "VIOLATION property=" in chk.stdout
 rules = [l.strip() for l in clean(chk.stdout).splitlines() if l.strip().startswith("violated")]
 if fast:
-    tests = "skipped (--fast)"; tests_ok = None
+    tests = "skipped (--fast)"; tests_ok = None; scope = []
 else:
-    t = run(["/verif/tools/baseline_compare.py", wt])
+    scope = []
+    if "--scope-auto" in sys.argv:
+        files = [l[6:].strip() for l in open(diff) if l.startswith("+++ b/")]
+        tops = {f.split("/")[1] if f.count("/") >= 2 else "" for f in files}
+        table = {"array": ["dask/array", "dask/tests"], "bag": ["dask/bag", "dask/bytes", "dask/tests"], "bytes": ["dask/bytes", "dask/bag", "dask/tests"],
+                 "dataframe": ["dask/dataframe", "dask/tests"], "diagnostics": ["dask/diagnostics", "dask/tests"]}
+        if tops and all(t_ in table for t_ in tops):
+            for t_ in sorted(tops):
+                for p_ in table[t_]:
+                    if p_ not in scope:
+                        scope.append(p_)
+    t = run(["/verif/tools/baseline_compare.py", wt, *scope])
     tests = clean(t.stdout).strip().splitlines()[-3:]
     tests_ok = t.returncode == 0
 run(["git", "-C", wt, "checkout", "-q", "--", "."])
@@ -36,7 +47,7 @@ meta = json.load(open(info)) if os.path.exists(info) else {}
 name = f"{prop}-{m}"
 meta.update({"property": prop, "confirmed": {"demo_on_original_rc": r0.returncode, "demo_on_changed_rc": r1.returncode,
              "demo_on_changed_tail": clean(r1.stdout + r1.stderr).strip().splitlines()[-4:],
-             "suite_on_changed": tests, "suite_matches_baseline": tests_ok,
+             "suite_on_changed": tests, "suite_matches_baseline": tests_ok, "suite_scope": (scope if not fast and scope else ("whole pinned suite" if not fast else "not run")),
              "ran": [f"PYTHONPATH=/repo python demo.py", f"git apply patch.diff (scratch worktree); PYTHONPATH=<worktree> python demo.py", "tools/baseline_compare.py <worktree>", f"bin/sa check {prop} --root <worktree>"]},
              "detected_by_check": detected, "reported_rules": rules[:6]})
 print(json.dumps({"name": name, "keep": ok, "detected": detected, "demo0": r0.returncode, "demo1": r1.returncode, "tests_ok": tests_ok, "rules": rules[:3]}, indent=1))
